@@ -68,7 +68,7 @@ L_IDEM = clause(U, 'law:idempotent', ['C09'], 'B', 'merge(s, s) equals s (parame
 L_NEUTRAL = clause(U, 'law:bare_stars_neutral', ['C09'], 'B', 'a bare (*args, **kwargs) is neutral on either side up to the names of the star parameters')
 L_ROUND = clause('_signatures.apply_params', 'law:sort_apply_round_trip', ['C09', 'C16'], 'B', 'apply_params(s, *sort_params(s)) equals s; with sources=True the provenance map is a fresh equal copy')
 L_FOLD = clause(U, 'law:fold', ['C09', 'C01'], 'B', 'roles kept: merge(a, b, c) equals merge(merge(a, b), c) in parameters and provenance')
-LAW_MODES = ('unary', 'idem', 'neutral_l', 'neutral_r', 'roundtrip', 'roundtrip_sources', 'foldlaw')
+LAW_MODES = ('unary', 'idem', 'neutral_l', 'neutral_r', 'roundtrip', 'roundtrip_sources', 'roundtrip_given_sources', 'foldlaw')
 
 
 def exc_is(interp, exc, cls_name):
@@ -425,6 +425,9 @@ def law_vcs(env, want):
             src = runs[0][1]._d.get('sources')
             fresh = isinstance(src, SymDict) and not sym.input_label(src) and not any(sym.input_label(v) for _, v in src.items_)
             out.append(VC(L_ROUND.full + ':fresh_copy', [], z3.BoolVal(bool(fresh)), L_ROUND.props))
+    elif mode == 'roundtrip_given_sources' and on(L_ROUND):
+        ok = runs[0][0] == 'return' and runs[0][1]._d.get('sources') is env['given']
+        out.append(VC(L_ROUND.full + ':carries_the_provenance_map_it_was_given', [], z3.BoolVal(bool(ok)), L_ROUND.props))
     elif mode == 'foldlaw' and on(L_FOLD):
         eqsig(L_FOLD, '', runs[0], runs[1], sources='lists')
     return out
@@ -495,6 +498,14 @@ def make_runner(shapes_, want=None, alias_funcs=True, wf_inputs=True, mode='merg
         elif mode in ('roundtrip', 'roundtrip_sources'):
             sp = call(m.ns['sort_params'], sigs[0], **({'sources': True} if mode == 'roundtrip_sources' else {}))
             env['runs'] = [call(m.ns['apply_params'], sigs[0], *sp[1]) if sp[0] == 'return' else sp]
+        elif mode == 'roundtrip_given_sources':
+            # apply_params with a provenance map of the caller's own - possibly an empty one
+            sp = call(m.ns['sort_params'], sigs[0])
+            given = SymDict()
+            if ctx.decide(z3.Bool('given_map_has_an_entry')):
+                given.items_ = [('+depths', SymDict())]
+            env['given'] = given
+            env['runs'] = [call(m.ns['apply_params'], sigs[0], *sp[1], sources=given) if sp[0] == 'return' else sp]
         elif mode == 'foldlaw':
             views = [sig_view(s) for s in sigs]
             # 'shared names keep their role': same kind at the same positional index (C01's wording), same class
@@ -591,6 +602,12 @@ def law_replay(env, vc, model):
                 bad.append(('law:sort_apply_round_trip', '%s vs %s' % (got, sigs[0])))
             if mode == 'roundtrip_sources' and (got.sources is sigs[0].sources or any(v is sigs[0].sources.get(k) for k, v in got.sources.items())):
                 bad.append(('law:sort_apply_round_trip', 'provenance containers shared with the input'))
+        elif mode == 'roundtrip_given_sources':
+            for given in ({}, {'+depths': {}}):
+                got = _signatures.apply_params(sigs[0], *_signatures.sort_params(sigs[0]), sources=given)
+                if got.sources is not given:
+                    bad.append(('law:sort_apply_round_trip', 'apply_params(sig, ..., sources=%r) carries %r%s' % (
+                        given, got.sources, ' - the very map of the input signature' if got.sources is sigs[0].sources else '')))
         elif mode == 'foldlaw':
             oc1 = rt.run_real(_signatures.merge, *sigs)
             oc2 = rt.run_real(lambda: _signatures.merge(_signatures.merge(sigs[0], sigs[1]), sigs[2]))
